@@ -14,6 +14,16 @@ CHECKS = {
         technique="TLA+ model checking (TLC) + forced-schedule replay + trace validation", ref="DESIGN.md §3 C20"),
 }
 
+CHECKS["C03"] = dict(
+    text="PongoSet.tla (ban part) enumerates every history of BanTag/BanFilter/compile over two sets up to the bound and TLC checks "
+         "FrozenAfterFirst, BansOnlyGrow, SetsIndependent, BanEffect, CompileVerdict on it; every history is replayed on real sets with "
+         "result and projected state (ban lists, frozen flag) compared after every step. PongoRoutes.tla spans syntactic route x file "
+         "route x ban status; each vector is instantiated with every name of the live tag/filter registries. Histories and routes are "
+         "exactly the quantifiers of the property.",
+    note="Trusted: TLC, VerifSetState projection hook, the harness's snippet table (valid use of each built-in tag/filter). "
+         "'Keeps working' is asserted only for names with a known-valid snippet; 'fails when banned' for every registered name.",
+    technique="TLA+ model checking (TLC) + exhaustive history replay + registry-driven route replay", ref="DESIGN.md §3 C03")
+
 PENDING = {}
 
 def main():
